@@ -182,6 +182,14 @@ def _under_number_guard(idx, f, call):
                     x = children(x)[-1]
                 if contains(st) and cur == 'NUMBER':
                     return True
+    for ifs in walk(f.body):
+        if ifs['kind'] == 'IfStmt' and len(children(ifs)) > 1 and contains(children(ifs)[1]):
+            for y in walk(children(ifs)[0]):
+                er = cast.enum_ref(y, idx) if y['kind'] == 'DeclRefExpr' else None
+                if er and er[1] == 'NUMBER':
+                    x = strip(children(ifs)[0])
+                    if not (x['kind'] == 'BinaryOperator' and x.get('opcode') == '!='):
+                        return True
     for comp in walk(f.body):
         if comp['kind'] == 'CompoundStmt':
             seen = False
